@@ -967,6 +967,67 @@ Section Inv.
         destruct G as (s' & Hse & Hpost). exists s'. split; [rewrite Hse; apply seek_fb_ok|exact Hpost].
   Qed.
 
+  (* ---- adfFileSeekOFS_ (the fallback walk along the data blocks) on a healthy device: from the start of the file it reaches any position
+          inside the file with a coherent handle - the same place and content the table-driven seek reaches ---- *)
+  Lemma ofs_walk_ok L E ct target : forall fuel s offset, Inv s L E -> Repr s L ct -> chg s = false -> cur s <> 0 -> pos s = offset ->
+    offset <= target < fsize s -> 0 <= pind s < bs ->
+    (offset < target -> (target - offset) + pind s < Z.of_nat fuel * bs) ->
+    exists s', ofs_walk bs ofs nobad fuel s offset target = (true, s') /\ Inv s' L E /\ Repr s' L ct /\ pos s' = target /\ cur s' <> 0 /\ chg s' = false
+      /\ fh s' = fh s /\ mw s' = mw s /\ mr s' = mr s /\ 0 <= pind s' < bs.
+  Proof.
+    induction fuel as [|fuel IH]; intros s offset I R Hc Hcu Hp Ht Hpi Hfuel.
+    - assert (offset = target) by (destruct (Z.eq_dec offset target); [assumption|]; specialize (Hfuel ltac:(lia)); simpl in Hfuel; lia).
+      exists s. cbn [ofs_walk]. splits; try reflexivity; try assumption; lia.
+    - cbn [ofs_walk]. destruct (Z.ltb_spec offset target) as [Hlt|Hge].
+      2:{ exists s. splits; try reflexivity; try assumption; lia. }
+      specialize (Hfuel Hlt). rewrite Nat2Z.inj_succ in Hfuel.
+      set (size := Z.min (target - offset) (bs - pind s)).
+      assert (Hsz : 0 < size /\ size <= target - offset /\ pind s + size <= bs) by (subst size; lia).
+      set (s1 := set_pind (set_pos s (pos s + size)) (pind s + size)).
+      assert (I1 : Inv s1 L E).
+      { destruct I as (B & HL & C'). split; [|split].
+        - apply (base_frame s); try reflexivity. assumption.
+        - exact HL.
+        - destruct C' as [(_ & Hz0 & _)|(Hcu' & Hnn & Hp' & Hpi' & Hps & Hlen & Hcl & Hnx & Hxc)]; [contradiction|].
+          right. subst s1. unfold fsize, ext_cursor in *. simpl. splits; try assumption; try lia. }
+      assert (R1 : Repr s1 L ct) by (apply (repr_frame s); try reflexivity; assumption).
+      change (pind s1) with (pind s + size).
+      destruct (Z.eqb_spec (pind s + size) bs) as [Hb|Hb].
+      + (* the end of the buffered block: the next one is fetched (the target lies inside the file) *)
+        destruct (advance_ok s1 L E ct I1 R1 Hcu Hb ltac:(subst s1; unfold fsize in *; simpl; lia)) as (sn & Hrn & I2 & R2 & P2 & C2 & Pi2 & F2 & W2 & M2 & Cn).
+        assert (Hset : settle s1 = s1) by (unfold settle; change (chg s1) with (chg s); rewrite Hc, andb_false_r; reflexivity).
+        rewrite Hset in Hrn. rewrite Hrn.
+        assert (Heq : set_pind sn 0 = set_chg (set_pind sn 0) false) by (apply state_ext; try reflexivity; cbn; exact Cn).
+        rewrite Heq. set (s2 := set_chg (set_pind sn 0) false) in *.
+        destruct (IH s2 (offset + size) I2 R2 ltac:(reflexivity) C2 ltac:(rewrite P2; subst s1; simpl; lia) ltac:(unfold fsize in *; rewrite F2; simpl; lia)
+                     ltac:(rewrite Pi2; lia) ltac:(intros _; rewrite Pi2; lia))
+          as (s3 & Hw & I3 & R3 & P3 & C3 & Cg3 & F3 & W3 & M3 & Pi3).
+        exists s3. splits; try assumption; try lia; [rewrite F3, F2|rewrite W3, W2|rewrite M3, M2]; reflexivity.
+      + (* the target lies inside the buffered block *)
+        assert (Hoff : offset + size = target) by (subst size; lia).
+        destruct fuel as [|fuel']; [exists s1; cbn [ofs_walk]; splits; try reflexivity; try assumption; subst s1; simpl; lia|].
+        cbn [ofs_walk]. destruct (Z.ltb_spec (offset + size) target); [lia|]. exists s1. splits; try reflexivity; try assumption; subst s1; simpl; lia.
+  Qed.
+
+  (* started from ANY clean state of the handle (cursor fields arbitrary - e.g. what a failed extension-block seek left) whose volume and
+     header are those of a coherent state *)
+  Theorem seek_ofs_ok eofk s t L E ct p : Inv t L E -> chg t = false -> Repr t L ct -> CB s L E -> len (d_bytes (cdata s)) = bs ->
+    dk s = dk t -> fh s = fh t -> 0 <= p < fsize s ->
+    exists s', seek_ofs bs ofs nobad eofk s p = (true, s') /\ Inv s' L E /\ Repr s' L ct /\ pos s' = p /\ cur s' <> 0.
+  Proof.
+    intros It Hct Rt C Hl Hdk Hfh Hp. pose proof C as (B & HL & Hc).
+    destruct (seek_start_cb s L E C (b_cext _ _ _ B) Hl) as (s0 & Hss & I0 & P0 & C0 & D0 & F0 & W0 & M0 & N0).
+    unfold seek_ofs. rewrite Hss. cbn [snd].
+    assert (Hf0 : fsize s0 = fsize s) by (unfold fsize; rewrite F0; reflexivity).
+    rewrite Hf0. replace (Z.min p (fsize s)) with p by lia. destruct (Z.eqb_spec p (fsize s)); [lia|].
+    destruct (N0 ltac:(lia)) as (N1 & N2 & N3).
+    assert (R0 : Repr s0 L ct) by (apply (repr_clean t s0 L E ct); try assumption; congruence).
+    destruct (ofs_walk_ok L E ct p (Z.to_nat (p / bs + 2)) s0 0 I0 R0 C0 N3 P0 ltac:(lia) ltac:(lia)) as (s' & Hw & I' & R' & P' & C' & _).
+    { intros _. rewrite N2. pose proof (Z.div_mod p bs ltac:(lia)). pose proof (Z.mod_pos_bound p bs Hbs). pose proof (Z.div_pos p bs ltac:(lia) Hbs).
+      rewrite Z2Nat.id by lia. nia. }
+    exists s'. splits; assumption.
+  Qed.
+
   (* ---- adfFileWrite: the copy into the buffered block ---- *)
   Lemma base_dirty s L E : Base s L E -> mw s = true -> Base (set_chg s true) L E.
   Proof.
@@ -1890,6 +1951,66 @@ Section Inv.
             -- destruct (load_ext bad _ _) as [[|] sx] eqn:Hl; [|cbn; discriminate]. rewrite (load_ext_mono _ _ _ Hl). cbn -[Z.ltb].
                destruct (_ <? 2); [discriminate|]. destruct (rd_data bs bad _ _) eqn:Hr; [|discriminate]. rewrite (rd_data_mono _ _ _ Hr). trivial.
             -- cbn -[Z.ltb]. destruct (_ <? 2); [discriminate|]. destruct (rd_data bs bad _ _) eqn:Hr; [|discriminate]. rewrite (rd_data_mono _ _ _ Hr). trivial.
+    Qed.
+
+    Lemma ext_walk_mono : forall fuel t nsect i ext t' i', ext_walk bad fuel t nsect i ext = (true, t', i') -> ext_walk nobad fuel t nsect i ext = (true, t', i').
+    Proof.
+      induction fuel as [|f IH]; intros t nsect i ext t' i' H; [exact H|]. cbn [ext_walk] in *.
+      destruct ((i <? ext) && negb (nsect =? 0)); [|exact H].
+      destruct (rd_ext bad t nsect) as [x|] eqn:Hr; [|discriminate]. rewrite (rd_ext_mono _ _ _ Hr). apply IH, H.
+    Qed.
+
+    Lemma read_ext_n_mono t ext t' : read_ext_n bs bad t ext = (true, t') -> read_ext_n bs nobad t ext = (true, t').
+    Proof.
+      unfold read_ext_n. destruct (_ || _); [discriminate|].
+      destruct (ext_walk bad _ t _ _ _) as ((ok, t1), i) eqn:Hw. destruct ok; [|cbn; discriminate].
+      rewrite (ext_walk_mono _ _ _ _ _ _ _ Hw). trivial.
+    Qed.
+
+    Lemma seek_start_mono t t' : seek_start bs ofs bad t = (true, t') -> seek_start bs ofs nobad t = (true, t').
+    Proof.
+      unfold seek_start. set (t0 := set_cur _ 0). destruct (fsize t0 =? 0); [trivial|].
+      destruct (read_next bs ofs bad t0) as [[|] t1] eqn:Hr; [|discriminate]. rewrite (read_next_mono _ _ Hr). trivial.
+    Qed.
+
+    Lemma seek_mid_mono t t' : seek_mid bs bad t = (true, t') -> seek_mid bs nobad t = (true, t').
+    Proof.
+      unfold seek_mid. destruct (pos2db (pos t) bs) as (((ext, px), pd), k).
+      set (t1 := set_ndb _ k).
+      destruct (ext =? -1).
+      - cbn [negb]. destruct (_ <? 2); [discriminate|]. destruct (rd_data bs bad _ _) eqn:Hr; [|discriminate]. rewrite (rd_data_mono _ _ _ Hr). trivial.
+      - set (t1' := match cext t1 with None => _ | Some _ => t1 end).
+        destruct (read_ext_n bs bad t1' ext) as [[|] tx] eqn:Hx; [|cbn; discriminate]. rewrite (read_ext_n_mono _ _ _ Hx). cbn [negb].
+        destruct (_ <? 2); [discriminate|]. destruct (rd_data bs bad _ _) eqn:Hr; [|discriminate]. rewrite (rd_data_mono _ _ _ Hr). trivial.
+    Qed.
+
+    (* without the OFS fallback (FFS), a seek that reports success under the faulty device is the seek of the fault-free device *)
+    Lemma seek_gen_mono eofk eofk0 t p t' : ofs = false -> (forall u u', eofk u = (true, u') -> eofk0 u = (true, u')) ->
+      seek_gen bs ofs bad eofk t p = (true, t') -> seek_gen bs ofs nobad eofk0 t p = (true, t').
+    Proof.
+      intros Hofs He. assert (Hfb : forall b0 e r q, seek_fb bs ofs b0 e r q = r) by (intros; unfold seek_fb; rewrite Hofs, andb_false_r; reflexivity).
+      unfold seek_gen. rewrite !Hfb.
+      destruct (_ && _ && _); [trivial|]. destruct (_ && _); [trivial|].
+      set (t1 := if mw t && chg t then _ else t).
+      destruct (p =? 0); [apply seek_start_mono|].
+      set (t2 := set_pos t1 _). destruct (pos t2 =? fsize t2); [apply He|apply seek_mid_mono].
+    Qed.
+
+    Lemma seek_eof_mono t t' : ofs = false -> seek_eof bs ofs bad t = (true, t') -> seek_eof bs ofs nobad t = (true, t').
+    Proof.
+      intros Hofs. unfold seek_eof. destruct (fsize t =? 0); [apply seek_start_mono|].
+      destruct (seek_gen bs ofs bad _ t (fsize t - 1)) as [[|] t1] eqn:Hg; [|cbn; discriminate].
+      rewrite (seek_gen_mono (fun u => (false, u)) (fun u => (false, u)) t (fsize t - 1) t1 Hofs (fun u u' H => H) Hg). trivial.
+    Qed.
+
+    Theorem fio_seek_faulty_ffs s L E ct p s' : ofs = false -> Inv s L E -> Repr s L ct -> 0 <= p ->
+      fio_seek bs ofs bad s p = (true, s') -> fio_seek bs ofs nobad s p = (true, s') /\ seek_post s s' L E ct (Z.min p (fsize s)).
+    Proof.
+      intros Hofs I R Hp H.
+      assert (H0 : fio_seek bs ofs nobad s p = (true, s')).
+      { unfold fio_seek in *. apply (seek_gen_mono (seek_eof bs ofs bad) (seek_eof bs ofs nobad) s p s' Hofs); [|exact H].
+        intros u u' Hu. apply seek_eof_mono; assumption. }
+      split; [exact H0|]. destruct (fio_seek_ok s L E ct p I R Hp) as (s1 & H1 & Hpost). rewrite H0 in H1. injection H1 as <-. exact Hpost.
     Qed.
 
     Lemma read_loop_faulty L E ct : forall fuel s n, Inv s L E -> Repr s L ct -> cur s <> 0 -> 0 <= n -> pos s + n <= fsize s ->
